@@ -175,8 +175,16 @@ static void seq_round(long r)
             for (size_t j = 0; j < k; j++) ++it;
             auto rit = ref.begin();
             std::advance(rit, static_cast<long>(k));
+            auto it_again = it;  // a second iterator on the same element (what a writer that lost a race for it holds)
             auto nxt = h->erase(it);
             auto rnext = ref.erase(rit);
+            if (rng.chance(30)) {
+                // erasing an element that was erased a moment ago changes nothing and still tells the caller where to go on
+                auto nxt2 = h->erase(it_again);
+                if ((nxt2 == h->end()) != (nxt == h->end()) || (nxt != h->end() && *nxt2 != *nxt))
+                    vrf::violation("oracle:repeated_erase_returned_a_different_position", "{}");
+                vrf::count("seq_repeated_erases");
+            }
             // erase returns the iterator following the erased element
             if ((rnext == ref.end()) != (nxt == h->end()) || (rnext != ref.end() && static_cast<uint32_t>(*nxt) != *rnext))
                 vrf::violation("oracle:erase_returned_wrong_iterator", "{}");
